@@ -61,6 +61,8 @@ pub fn emit(out: &mut Out, text: &str, rng: &mut Rng, thorough: bool, kind: &str
             return;
         }
     };
+    #[cfg(grmtools_verif)]
+    let _ = lrtable::take_pager_trace();
     let (sg, st) = match from_yacc(&g, Minimiser::Pager) {
         Ok(x) => x,
         Err(_) => {
@@ -68,6 +70,9 @@ pub fn emit(out: &mut Out, text: &str, rng: &mut Rng, thorough: bool, kind: &str
             return;
         }
     };
+    // what `pager_stategraph` iterated over and had built before `gc` (hook, cfg(grmtools_verif))
+    #[cfg(grmtools_verif)]
+    let trace = lrtable::take_pager_trace();
     if usize::from(g.prods_len()) > 160 || usize::from(sg.all_states_len()) > 120 {
         out.count("too_big_skipped");
         return;
@@ -114,7 +119,14 @@ pub fn emit(out: &mut Out, text: &str, rng: &mut Rng, thorough: bool, kind: &str
     }
     payload.push(' ');
     payload.push_str(&crate::out::join(&accepted));
+    #[cfg(grmtools_verif)]
+    {
+        payload.push(' ');
+        payload.push_str(&pager_tie::request_part(&trace));
+    }
     out.case("C02", id, &payload);
+    #[cfg(grmtools_verif)]
+    pager_tie::impl_lines(out, id, &trace, &sg);
     for l in ilines {
         out.imp(id, "I", &l);
     }
@@ -154,7 +166,9 @@ pub fn run(a: &Args) {
     }
     if a.shard == 1 % a.shards {
         let mut rng = Rng::for_case(a.seed, 2, 0);
-        for _ in 0..(if a.thorough { 12 } else { 4 }) {
+        // 10/24 members: whether a member's orphaned chain appears depends on the hash order of its items,
+        // and the pager tie wants states collected by `gc` in every run
+        for _ in 0..(if a.thorough { 24 } else { 10 }) {
             let t = grammar::pager_orphan_family(&mut rng);
             emit(&mut out, &t, &mut rng, a.thorough, "pager_orphan_family");
         }
@@ -189,4 +203,88 @@ pub fn run(a: &Args) {
         }
     }
     out.finish(&a.out);
+}
+
+/// Tie of `lean/GrmVerif/Model/PagerImpl.lean` with `pager_stategraph`: the hook's trace gives the model
+/// the hash-map iteration orders (request) and the real intermediate and final results (`Ig` lines).
+#[cfg(grmtools_verif)]
+mod pager_tie {
+    use crate::out::Out;
+    use lrtable::{PagerTrace, StateGraph};
+
+    /// `maxStates niters (ncore (p d)* nclosed (p d)*)*`
+    pub fn request_part(t: &PagerTrace) -> String {
+        let mut v: Vec<usize> = vec![u32::MAX as usize, t.iters.len()];
+        for (_, core_keys, closed_keys, _) in &t.iters {
+            for ks in [core_keys, closed_keys] {
+                v.push(ks.len());
+                for (p, d) in ks {
+                    v.push(*p);
+                    v.push(*d);
+                }
+            }
+        }
+        crate::out::join(&v)
+    }
+
+    fn items_str(is: &[(usize, usize, Vec<usize>)]) -> String {
+        let mut is: Vec<_> = is.to_vec();
+        is.sort();
+        is.iter()
+            .map(|(p, d, la)| {
+                let mut la = la.clone();
+                la.sort();
+                format!("{}.{}:{}", p, d, la.iter().map(|x| x.to_string()).collect::<Vec<_>>().join("."))
+            })
+            .collect::<Vec<_>>()
+            .join(",")
+    }
+
+    fn edges_str(es: &[(usize, usize)]) -> String {
+        let mut es: Vec<_> = es.to_vec();
+        es.sort();
+        es.iter().map(|(s, t)| format!("{}>{}", s, t)).collect::<Vec<_>>().join(",")
+    }
+
+    fn state_str(core: &[(usize, usize, Vec<usize>)], closed: &[(usize, usize, Vec<usize>)], es: &[(usize, usize)]) -> String {
+        format!("core{{{}}}closed{{{}}}edges{{{}}}", items_str(core), items_str(closed), edges_str(es))
+    }
+
+    fn dump_items<S>(is: &std::collections::HashMap<(cfgrammar::PIdx<u32>, cfgrammar::SIdx<u32>), vob::Vob, S>) -> Vec<(usize, usize, Vec<usize>)> {
+        is.iter().map(|((p, d), ctx)| (usize::from(*p), usize::from(*d), ctx.iter_set_bits(..).collect())).collect()
+    }
+
+    pub fn impl_lines(out: &mut Out, id: u64, t: &PagerTrace, sg: &StateGraph<u32>) {
+        let seq: Vec<String> = t
+            .iters
+            .iter()
+            .map(|(i, _, _, syms)| format!("{}:{}", i, syms.iter().map(|x| x.to_string()).collect::<Vec<_>>().join(",")))
+            .collect();
+        out.imp(id, "Ig", &format!("seq {}", seq.join(" ")));
+        let n = t.core_states.len();
+        let pre: Vec<String> = (0..n).map(|s| state_str(&t.core_states[s], &t.closed_states[s], &t.edges[s])).collect();
+        out.imp(id, "Ig", &format!("pre n={} {}", n, pre.join(" ")));
+        let m = usize::from(sg.all_states_len());
+        let post: Vec<String> = sg
+            .iter_stidxs()
+            .map(|s| {
+                let es: Vec<(usize, usize)> = sg.edges(s).iter().map(|(sym, t)| (crate::gen::grammar::enc_sym(sym), usize::from(*t))).collect();
+                state_str(&dump_items(&sg.core_state(s).items), &dump_items(&sg.closed_state(s).items), &es)
+            })
+            .collect();
+        out.imp(id, "Ig", &format!("post n={} {}", m, post.join(" ")));
+        let reopened = t.iters.len().saturating_sub(n);
+        out.count("pager.grammars");
+        out.add("pager.iterations", t.iters.len() as u64);
+        out.add("pager.pre_gc_states", n as u64);
+        out.add("pager.final_states", m as u64);
+        out.add("pager.reopened_states", reopened as u64);
+        out.add("pager.states_collected_by_gc", (n - m) as u64);
+        if reopened > 0 {
+            out.count("pager.grammars_with_reopened_states");
+        }
+        if n > m {
+            out.count("pager.grammars_with_gc");
+        }
+    }
 }
